@@ -1984,7 +1984,7 @@ def _b_max(ex, e, st, is_max=True):
     return ex.bind(ex.ev(e.args[0], st), f)
 
 
-def _b_next(ex, e, st):
+def _b_next(ex, e, st, stop_cls='StopIteration'):
     def f(s, it):
         it = unbox_handle(ex, it)
         if not (isinstance(it, Obj) and hasattr(it, 'pull')):
@@ -1995,13 +1995,19 @@ def _b_next(ex, e, st):
                 if len(e.args) == 2:
                     res.extend(ex.ev(e.args[1], s1))
                 else:
-                    res.append(ex.raise_new(s1, 'StopIteration'))
+                    res.append(ex.raise_new(s1, stop_cls))
             elif kind == 'raise':
                 res.append(('raise', s1, x))
             else:
                 res.append(('ok', s1, x))
         return res
     return ex.bind(ex.ev(e.args[0], st), f)
+
+
+def _b_anext(ex, e, st):
+    """`anext(ait[, default])`: the awaitable's outcome is produced at the call (the engine's `await` of a plain value is the value), which is
+    equivalent for the only supported use, a directly awaited `await anext(...)`; exhaustion is StopAsyncIteration."""
+    return _b_next(ex, e, st, 'StopAsyncIteration')
 
 
 def _b_list(ex, e, st):
@@ -2187,7 +2193,7 @@ def _b_iter(ex, e, st):
 
 
 BUILTINS = {
-    'iter': _b_iter,
+    'iter': _b_iter, 'aiter': _b_iter, 'anext': _b_anext,
     'len': _b_len, 'isinstance': _b_isinstance, 'max': _b_max, 'min': lambda ex, e, st: _b_max(ex, e, st, False),
     'next': _b_next, 'list': _b_list, 'getattr': _b_getattr, 'print': _b_print, 'int': _b_int, 'id': _b_id, 'zip': _b_zip,
     'enumerate': _b_enumerate, 'range': _b_range, 'reversed': _b_reversed,
